@@ -16,17 +16,17 @@ P = {
  'C02': dict(tech='Lean 4 theorems (K0, K1, K3, K5: all ten flat × polygon/polyhedron pairs exact in both orders) + Lean judge of the hypotheses on every body + three-way correspondence incl. exact vertex-enumeration oracle',
              text='PROOF (full under the stated hypotheses): all five flat × ConvexPolygon pairs (every Valid polygon; kernels K0, K1) and all five flat × ConvexPolyhedron pairs (kernels K3, K5; every polyhedron meeting ExactHyp: Valid faces, closed surface, vertices on the inner side of every face, no two neighbouring faces coplanar, edge list = face edges) are proved EXACT in both argument orders: the call returns without error an object denoting exactly f ∩ hull(vertices), None iff empty, a returned Segment proper. The constructor output meets ExactHyp for the faces of any Valid body without coplanar neighbours, in any order / start vertex / orientation (bridge theorem), and exactHypB (soundness proved) judges every body of the run. The hypothesis on coplanar neighbours cannot be dropped (counterexample proved in Lean, reproduced on the implementation; outside the property, whose faces are the maximal faces). Correspondence: implementation vs model vs independent exact vertex enumeration on constructed degenerate positions.',
              ref='DESIGN.md §5 C02'),
- 'C03': dict(tech='Lean 4 theorems (polygon × polygon exact in every position, polygon × polyhedron exact, soundness of all body pairs) + three-way correspondence against exact vertex enumeration',
-             text='PROOF (partial): SOUNDNESS is proved for every polygon/polyhedron pair, including the coplanar polygon case and polyhedron × polyhedron (every point of the result lies in both operands); polygon × polygon is proved EXACT in every relative position, coplanar overlaps / nesting / touching included (kernels K0, K1, K2, K6), never raising; polygon × polyhedron is proved EXACT in both orders for every Valid polygon and every polyhedron meeting ExactHyp (K3 plane section composed with K0/K1/K2), never raising. Completeness of the assembly (K4) for polyhedron × polyhedron is not proved and is decided per run by comparing implementation, executable model and exact vertex enumeration (dimension and vertex set, hence measures) on 9 templates. Rational poses only.',
+ 'C03': dict(tech='Lean 4 theorems (kernels K0–K6: polygon × polygon, polygon × polyhedron exact; polyhedron × polyhedron exact whenever it returns) + three-way correspondence against exact vertex enumeration',
+             text='PROOF (partial): SOUNDNESS is proved for every polygon/polyhedron pair, including the coplanar polygon case and polyhedron × polyhedron (every point of the result lies in both operands); polygon × polygon is proved EXACT in every relative position, coplanar overlaps / nesting / touching included (kernels K0, K1, K2, K6), never raising; polygon × polyhedron is proved EXACT in both orders for every Valid polygon and every polyhedron meeting ExactHyp (K3 plane section composed with K0/K1/K2), never raising; polyhedron × polyhedron (K4): whatever is returned — None, Point, proper Segment, polygon or polyhedron — denotes exactly A ∩ B, touching and disjoint bodies are returned without error, no "Bug detected" branch is reachable, and the only possible exception is the check inside ConvexPolyhedron(collected faces) when the bodies overlap. Not proved: that this final constructor call succeeds (Euler) and stores a Valid body; decided per run by comparing implementation, executable model and exact vertex enumeration (dimension and vertex set, hence measures) on 9 templates. Rational poses only.',
              ref='DESIGN.md §5 C03'),
  'C04': dict(tech='translator (isinstance chain + documentation table -> Lean) + decide over the finite tables + correspondence over all 49 pairs × 3 call forms',
-             text='PROOF (full for the dispatch logic): the 49-cell table, None guard and fall-through are extracted from the current source and Lean decides totality, symmetry (same handler, swapped arguments), foreign-type rejection, coverage of the documentation table, and that the table-driven dispatcher equals the reference dispatcher. That the call never raises (no "Bug detected") is proved for every ordered type pair except polyhedron × polyhedron (flats: C01; polygons / polyhedra: kernels K0–K3, K6, for Valid polygons and polyhedra meeting ExactHyp), and whenever a call returns its result type is in the documented list (all 49 pairs, all operands). Polyhedron × polyhedron and the implementation side are decided per run by the correspondence (function form, swapped operands, method form, None).',
+             text='PROOF (full for the dispatch logic): the 49-cell table, None guard and fall-through are extracted from the current source and Lean decides totality, symmetry (same handler, swapped arguments), foreign-type rejection, coverage of the documentation table, and that the table-driven dispatcher equals the reference dispatcher. That the call never raises (no "Bug detected") is proved for every ordered type pair except polyhedron × polyhedron (flats: C01; polygons / polyhedra: kernels K0–K3, K6, for Valid polygons and polyhedra meeting ExactHyp); for polyhedron × polyhedron no "Bug detected" branch is reachable and only the final ConvexPolyhedron(collected faces) check can raise (K4), and whenever a call returns its result type is in the documented list (all 49 pairs, all operands). Polyhedron × polyhedron and the implementation side are decided per run by the correspondence (function form, swapped operands, method form, None).',
              ref='DESIGN.md §5 C04'),
  'C05': dict(tech='Lean 4 iff-theorems per container/candidate type + three-way correspondence against exact containment',
              text='PROOF (full under the stated validity hypotheses): membership ⇔ containment for Point in Line/HalfLine/Segment/Plane/ConvexPolygon (hull, boundary included), Point and Segment in ConvexPolyhedron (kernel K5: face tests of a Valid closed convex polyhedron = convex hull of its vertices, both directions), Segment in Line/HalfLine/Segment/Plane/ConvexPolygon, HalfLine in Line/HalfLine/Plane, Line in Plane, ConvexPolygon in Plane, ConvexPolygon in ConvexPolyhedron (both directions). That an implementation-built body is Valid is judged per run by the Lean decision procedure validB (proved sound). Correspondence: 18 (candidate, container) combinations, three-way against exact H-representation containment.',
              ref='DESIGN.md §5 C05'),
- 'C06': dict(tech='Lean 4 theorems (fan area = shoelace; closed surface ⇒ reference-independent volume; pyramid term) + correspondence against exact rational measures',
-             text='PROOF (full relative to the shoelace / surface-integral definitions): the fan-of-triangles area of a Valid polygon equals the shoelace value for any fan centre; vector areas of a closed surface cancel, so the pyramid-sum volume is reference independent; per-face h·A/3 is the cone term. Permutation/orientation invariance of the constructors and float accuracy (1e-9) are decided per run against exact rational cross-product/determinant values.',
+ 'C06': dict(tech='Lean 4 theorems (fan area = shoelace; closed surface ⇒ reference-independent volume; invariance under vertex order, face order and face orientation; volume = surface integral) + correspondence against exact rational measures',
+             text='PROOF (full relative to the shoelace / surface-integral definitions): the fan-of-triangles area of a Valid polygon equals the shoelace value for any fan centre; the squared area of a constructed polygon is |½ Σ pᵢ×pᵢ₊₁|² and — with the edge-length multiset and the centre — does not depend on the order / repetition of the input points or the reverse flag; -P has the same measures; the vector areas of a closed surface cancel, so the pyramid-sum volume of a constructed body equals ⅙ Σ (p₀−q)·A_f for every reference point, is ≥ 0, and volume, edge-length multiset, face-area multiset and centre are the same for any two constructions from the faces of one Valid body in any face order, start vertex and orientation; per-face h·A/3 is the cone term; moved bodies keep their measures. Float accuracy (1e-9), Heron and square roots are decided per run against exact rational cross-product/determinant values over all permutations / shuffles / orientations.',
              ref='DESIGN.md §5 C06'),
  'C10': dict(tech='Lean 4 theorems distance_is_minimum / symm / zero_iff_meet + extracted dispatch chain + correspondence',
              text='PROOF (full): on all documented pairs (incl. parallel, skew, intersecting lines; line parallel to / in / crossing a plane) the model of distance — through the same auxiliary constructions as the code — attains and lower-bounds the Euclidean distance, is symmetric, and is zero iff intersection is not None; the isinstance chain is extracted and decided. Float evaluation is compared with the exact value at 1e-9.',
